@@ -189,8 +189,9 @@ impl Scene for S {
         let Some(a_task) = a_task else { return out };
         let a_end = an.end_of_task(a_task);
         let stopped_exit = an.exits.iter().any(|e| e.a == 0 && e.cb == Cb::Stopped);
+        let a_started_cfg = self.roles()[0].started.clone();
         let failed = match a_end {
-            Some((_, cancelled)) => cancelled || !stopped_exit,
+            Some((_, cancelled)) => cancelled || !stopped_exit || an.role_failed(0, &a_started_cfg),
             None => false,
         };
         let Some((tidx, _)) = a_end else {
